@@ -764,6 +764,12 @@ func (p *Peer) InitAllTables(ctx context.Context) (err error) {
 
 	duration := time.Since(time1)
 	peerStatus := p.peerState.Get()
+	// remember whose objects these are only together with the objects themselves: a rebuild that failed
+	// half way must not make the next update believe the restart has been handled already
+	if status := data.Get(TableStatus); status != nil && len(status.data) > 0 {
+		p.programStart.Store(status.data[0].GetInt64ByName("program_start"))
+		p.corePid.Store(status.data[0].GetInt64ByName("nagios_pid"))
+	}
 	p.data.Store(data)
 	p.responseTime.Set(duration.Seconds())
 	logWith(p).Infof("objects created in: %s", duration.String())
@@ -932,14 +938,9 @@ func (p *Peer) updateInitialStatus(ctx context.Context, store *DataStore) (err e
 		return err
 	}
 
-	programStart := statusData[0].GetInt64ByName("program_start")
-	corePid := statusData[0].GetInt64ByName("nagios_pid")
-
 	// check thruk config tool settings and other extra data
 	p.configTool.Set("")
 	p.thrukExtras.Set("")
-	p.programStart.Store(programStart)
-	p.corePid.Store(corePid)
 	if !p.HasFlag(MultiBackend) {
 		// store as string, we simply passthrough it anyway
 		if configtool != nil {
